@@ -1,7 +1,8 @@
 (* Proofs/KernelsP.v — termination (explicit fuel bounds, by decreasing measures), memory safety
    (no OutOfBounds) and the refutations for the kernels of Model/Kernels.v. *)
-From Coq Require Import ZArith List Bool Lia ZifyBool.
+From Coq Require Import ZArith List Bool Lia ZifyBool QArith.
 From Verif Require Import Py PyExt PyValid S_validators Kernels.
+Open Scope Z_scope.
 Import ListNotations.
 Open Scope Z_scope.
 
@@ -825,7 +826,7 @@ Qed.
 
 Section ComputeMaskP.
   Variable F : nat.
-  Variable guess_break : nat -> bool.
+  Variable lg : Q -> Q.
 
   Lemma gmp_matches_ok c lo hi ps acc :
     zlen c < Z.of_nat F -> exists acc', gmp_matches F c lo hi ps acc = Done acc'.
@@ -844,33 +845,99 @@ Section ComputeMaskP.
     destruct (gmp_matches_ok c lo hi ps acc HF) as [a' ->]. cbn [kbind]. apply IH.
   Qed.
 
-  Lemma cm_loop_ok fuel i coords ranges pairs :
-    Forall (fun c => zlen c < Z.of_nat F) coords -> (length coords < fuel)%nat ->
-    exists r, cm_loop F guess_break fuel i coords ranges pairs = Done r.
+  (* the extracted cost test, spelled out over Q *)
+  Lemma cm_break_val rlen P M :
+    cm_break lg rlen P M =
+    negb (Qle_bool (inject_Z (rlen * P + 2) *
+                    lg (inject_Z (rlen * P + 2) / (if Qle_bool (inject_Z P) (inject_Z 1) then inject_Z 1 else inject_Z P)))
+                   (inject_Z M + inject_Z P))%Q.
+  Proof. reflexivity. Qed.
+
+  (* THE WORK BOUND of one narrowing step.  When the cost test lets the step run, the number of requested
+     positions times the number of candidate ranges (= the pairs of binary searches the step performs) is
+     bounded by the stored elements still in play plus three per range — whatever the extent of the axis
+     and the length of the slice.  Uses of lg: only lg x >= 1 for x >= 3. *)
+  Hypothesis lg_ge1 : forall x : Q, (3 <= x -> 1 <= lg x)%Q.
+
+  Lemma cm_step_bound rlen P M :
+    0 <= rlen -> 0 <= P -> cm_break lg rlen P M = false ->
+    rlen * P + 2 <= Z.max 0 M + 3 * Z.max P 1.
   Proof.
-    intros Hc. revert fuel i ranges pairs. induction Hc as [|c coords Hc0 Hc IH]; intros fuel i ranges pairs Hf.
-    - destruct fuel; [cbn in Hf; lia|]. cbn. eexists; reflexivity.
-    - destruct fuel; [cbn in Hf; lia|]. cbn [cm_loop].
-      destruct ranges as [|ps ranges]; [eexists; reflexivity|].
-      destruct (guess_break i); [eexists; reflexivity|].
-      destruct (get_mask_pairs_ok pairs c ps [] Hc0) as [p' ->]. cbn [kbind].
-      apply IH. cbn in Hf. lia.
+    intros Hr HP Hb. rewrite cm_break_val in Hb. apply negb_false_iff in Hb. apply Qle_bool_iff in Hb.
+    set (S_ := rlen * P + 2) in *. assert (HS : 2 <= S_) by (unfold S_; nia).
+    set (D := if Qle_bool (inject_Z P) (inject_Z 1) then inject_Z 1 else inject_Z P) in *.
+    assert (HD : (D == inject_Z (Z.max P 1))%Q).
+    { unfold D. destruct (Qle_bool (inject_Z P) (inject_Z 1)) eqn:E.
+      - apply Qle_bool_iff in E. rewrite <- Zle_Qle in E. replace (Z.max P 1) with 1 by lia. reflexivity.
+      - assert (~ (inject_Z P <= inject_Z 1)%Q) by (intros H; apply Qle_bool_iff in H; congruence).
+        rewrite <- Zle_Qle in H. replace (Z.max P 1) with P by lia. reflexivity. }
+    assert (HDpos : (0 < D)%Q) by (rewrite HD; change 0%Q with (inject_Z 0); rewrite <- Zlt_Qlt; lia).
+    destruct (Qlt_le_dec (inject_Z S_) (3 * D)) as [Hlt|Hge'].
+    - (* fewer than three positions per range *)
+      rewrite HD in Hlt. change 3%Q with (inject_Z 3) in Hlt. rewrite <- inject_Z_mult in Hlt.
+      rewrite <- Zlt_Qlt in Hlt. lia.
+    - (* the logarithm is at least 1: the test bounds S itself *)
+      assert (Hge : (3 <= inject_Z S_ / D)%Q) by (apply Qle_shift_div_l; assumption).
+      pose proof (lg_ge1 _ Hge) as Hl.
+      assert (H1 : (inject_Z S_ <= inject_Z M + inject_Z P)%Q).
+      { eapply Qle_trans; [|exact Hb]. rewrite <- (Qmult_1_r (inject_Z S_)) at 1.
+        apply Qmult_le_l; [change 0%Q with (inject_Z 0); rewrite <- Zlt_Qlt; lia|assumption]. }
+      rewrite <- inject_Z_plus, <- Zle_Qle in H1. lia.
+  Qed.
+
+  Lemma cm_loop_ok fuel : forall i coords ranges pairs M log,
+    Forall (fun c => zlen c < Z.of_nat F) coords -> (length coords < fuel)%nat ->
+    Forall (fun t => let '(r, P, M0) := t in r * P + 2 <= Z.max 0 M0 + 3 * Z.max P 1) log ->
+    exists r, cm_loop F lg fuel i coords ranges pairs M log = Done r /\
+              Forall (fun t => let '(r, P, M0) := t in r * P + 2 <= Z.max 0 M0 + 3 * Z.max P 1) (snd r).
+  Proof.
+    induction fuel as [|f IH]; intros i coords ranges pairs M log Hc Hf Hl; [lia|].
+    cbn [cm_loop]. destruct coords as [|c coords']; [eexists; split; [reflexivity|exact Hl]|].
+    destruct ranges as [|ps ranges']; [eexists; split; [reflexivity|exact Hl]|].
+    destruct (cm_break lg (zlen ps) (zlen pairs) M) eqn:Eb; [eexists; split; [reflexivity|exact Hl]|].
+    pose proof (Forall_inv Hc) as Hc0. pose proof (Forall_inv_tail Hc) as Hc'.
+    destruct (get_mask_pairs_ok pairs c ps [] Hc0) as [p' ->]. cbn [kbind].
+    apply IH; [assumption|cbn in Hf; lia|].
+    apply Forall_app. split; [assumption|]. constructor; [|constructor].
+    apply cm_step_bound; [apply zlen_nonneg|apply zlen_nonneg|assumption].
   Qed.
 End ComputeMaskP.
 
-(* every oracle (whatever the float estimate answers): the loop runs at most ndim times, each
-   binary search at most nnz + 1 probes *)
+(* for EVERY logarithm with lg x >= 1 on x >= 3: the loop runs at most ndim times, each binary search at most
+   nnz + 1 probes, and every narrowing step it executes obeys the work bound *)
 Theorem compute_mask_narrow_safe_proof :
-  forall (guess_break : nat -> bool) (nnz : Z) (coords ranges : list (list Z)) (F : nat),
+  forall (lg : Q -> Q) (nnz : Z) (coords ranges : list (list Z)) (F : nat),
+    (forall x : Q, (3 <= x -> 1 <= lg x)%Q) ->
     0 <= nnz -> Forall (fun c => zlen c = nnz) coords ->
     Z.of_nat F = nnz + zlen coords + 1 ->
-    exists r, compute_mask_narrow F guess_break nnz coords ranges = Done r.
+    exists i pairs log, compute_mask_narrow F lg nnz coords ranges = Done (i, pairs, log) /\
+      Forall (fun t => let '(r, P, M0) := t in r * P + 2 <= Z.max 0 M0 + 3 * Z.max P 1) log.
 Proof.
-  intros g nnz coords ranges F Hn Hc HF. unfold compute_mask_narrow.
+  intros lg nnz coords ranges F Hlg Hn Hc HF. unfold compute_mask_narrow.
   pose proof (zlen_nonneg coords).
-  apply cm_loop_ok.
+  destruct (cm_loop_ok F lg Hlg F 0 coords ranges [(0, nnz)] nnz []) as [[[i pairs] log] [E Hl]].
   - eapply Forall_impl; [|exact Hc]. cbn. intros a Ha. lia.
   - unfold zlen in *. lia.
+  - constructor.
+  - exists i, pairs, log. split; assumption.
+Qed.
+
+Theorem compute_mask_work_bound_proof :
+  forall (lg : Q -> Q), (forall x : Q, (3 <= x -> 1 <= lg x)%Q) ->
+  forall rlen n_pairs n_matches : Z,
+    0 <= rlen -> 0 <= n_pairs -> cm_break lg rlen n_pairs n_matches = false ->
+    rlen * n_pairs + 2 <= Z.max 0 n_matches + 3 * Z.max n_pairs 1.
+Proof. intros lg Hlg. apply cm_step_bound. exact Hlg. Qed.
+
+(* the hypothesis on lg is satisfiable, and a slice of 2^39 positions over one stored element is NOT walked *)
+Example compute_mask_work_example :
+  (forall x : Q, (3 <= x -> 1 <= (fun y => (y - 1) / 2) x)%Q) /\
+  cm_break (fun y => (y - 1) / 2)%Q (2 ^ 39) 1 1 = true /\
+  cm_break (fun y => (y - 1) / 2)%Q 1 1 5 = false.
+Proof.
+  split; [|split; vm_compute; reflexivity].
+  intros x Hx. apply Qle_shift_div_l; [reflexivity|]. unfold Qminus. 
+  apply (Qplus_le_r _ _ 1). ring_simplify. exact Hx.
 Qed.
 
 (* ================================================================= _sort_coo group scan *)
@@ -1169,9 +1236,11 @@ Example match_arrays_example : match_arrays [1; 2; 2; 5] 5 [0; 2; 2; 5] = Done [
 Proof. reflexivity. Qed.
 
 Example compute_mask_narrow_example :
-  compute_mask_narrow 5 (fun i => Nat.eqb i 1) 4 [[0; 0; 1; 1]; [0; 1; 0; 1]] [[1]; [0; 1]] = Done (1%nat, [(2, 4)]) /\
-  compute_mask_narrow 5 (fun _ => false) 4 [[0; 0; 1; 1]; [0; 1; 0; 1]] [[1]; [1]] = Done (2%nat, [(3, 4)]).
-Proof. split; reflexivity. Qed.
+  compute_mask_narrow 5 (fun y => (y - 1) / 2)%Q 4 [[0; 0; 1; 1]; [0; 1; 0; 1]] [[1]; [0; 1]] = Done (1%nat, [(2, 4)], [(1, 1, 4)]) /\
+  compute_mask_narrow 5 (fun y => (y - 1) / 2)%Q 4 [[0; 0; 1; 1]; [0; 1; 0; 1]] [[1]; [1]] = Done (2%nat, [(3, 4)], [(1, 1, 4); (1, 1, 2)]) /\
+  (* a slice of nine positions over four stored elements: the cost test stops the narrowing at once *)
+  compute_mask_narrow 5 (fun y => (y - 1) / 2)%Q 4 [[0; 0; 1; 1]; [0; 1; 0; 1]] [[0; 1; 2; 3; 4; 5; 6; 7; 8]; [1]] = Done (0%nat, [(0, 4)], []).
+Proof. repeat split; vm_compute; reflexivity. Qed.
 
 Example algA_example :
   algA 11 (fun k => Nat.eqb k 0) 4 3 10 = Done [1; 2; 7].
